@@ -426,6 +426,55 @@ def check(c, st):
         if back is not value and not (back == value and not is_container(value)):
             return ('get_path-wrong-object', 'research path %r -> %r, get_path gave %r' % (path, value, back))
         st.count('research_paths_checked')
+    # the owner now changes its structure in place - one member of every set swapped for another (same size), the
+    # last item of every list and one value of every dict replaced - and searches it again: every newly reported
+    # path must be retrievable from the structure as it is NOW (nothing remembered from the earlier look-ups)
+    objs, seen, stack = [], set(), [root]
+    while stack:
+        x = stack.pop()
+        if not is_container(x) or id(x) in seen:
+            continue
+        seen.add(id(x))
+        objs.append(x)
+        stack.extend(x.values() if isinstance(x, dict) else x)
+    swapped = 0
+    for n, x in enumerate(objs):
+        try:
+            if type(x) is set:
+                leaves = sorted((m for m in x if not is_container(m)), key=repr)
+                if leaves:
+                    x.remove(leaves[0])
+                    x.add('zz-swapped-%d' % n)
+                    swapped += 1
+            elif type(x) is list and x and not is_container(x[-1]):
+                x[-1] = 'zz-swapped-%d' % n
+                swapped += 1
+            elif type(x) is dict:
+                for k in list(x):
+                    if not is_container(x[k]):
+                        x[k] = 'zz-swapped-%d' % n
+                        swapped += 1
+                        break
+        except Exception:
+            pass
+    if swapped:
+        st.monitor_evals += 1
+        try:
+            found2 = iu.research(root, query=lambda p, k, v: True)
+        except Exception as e:
+            return ('research-raised:%s:after-in-place-edit' % type(e).__name__, 'research raised %r (case %r)' % (e, c))
+        for path, value in found2:
+            if path == (None,) and value is root:
+                continue
+            try:
+                back = iu.get_path(root, path)
+            except Exception as e:
+                return ('get_path-fails:after-in-place-edit', 'after the structure was edited in place research reported path %r '
+                        '-> %r but get_path raised %r (case %r)' % (path, value, e, c))
+            if back is not value and not (back == value and type(back) is type(value) and not is_container(value)):
+                return ('get_path-wrong-object:after-in-place-edit', 'after the structure was edited in place (set members '
+                        'swapped, same sizes) research reported %r -> %r, get_path gave %r (case %r)' % (path, value, back, c))
+        st.count('research_after_in_place_edit')
     if tag.split(':')[0] != 'tree':
         st.see((repr(c['table']), repr(c['prog'])))
     st.count(tag)
